@@ -155,7 +155,10 @@ func TestVerifC07(t *testing.T) {
 			} else {
 				switch {
 				case enc == "lying-content-length":
-					if resp.ioErr == nil && resp.status < 400 && resp.framingErr == "" {
+					// buffered: the proxy has read the whole (short) body before it answers, so it must answer with an
+					// error status.  streamed (-1): the status line is already out, the client must at least see
+					// that the framing is broken.
+					if resp.ioErr == nil && resp.status < 400 && (!unlimited || resp.framingErr == "") {
 						c.Failf("truncated-response-delivered-as-success:"+cls, "%s", desc)
 					}
 				case over:
